@@ -248,6 +248,19 @@ int main(int argc, char **argv)
                 unary(&table[k], sr * M, si * H);
             }
         }
+        /* tangent and cotangent far from the real axis (the hyperbolic terms overflow, the value tends to +-i) */
+        a_real const Y = (a_real)(sizeof(a_real) == 4 ? 60 : sizeof(a_real) == 8 ? 400 : 6000);
+        for (size_t k = 0; k < sizeof(table) / sizeof(table[0]); ++k)
+        {
+            if (strcmp(table[k].name, "tan") && strcmp(table[k].name, "cot")) { continue; }
+            for (int s4 = 0; s4 < 4; ++s4)
+            {
+                a_real const sr = (s4 & 1) ? -1 : 1, si = (s4 & 2) ? -1 : 1;
+                unary(&table[k], sr * M, si * Y);
+                unary(&table[k], sr * (a_real)0.75, si * Y * 2);
+                unary(&table[k], sr * M, si * H);
+            }
+        }
     }
     for (size_t k = 0; k < sizeof(table) / sizeof(table[0]); ++k)
     {
